@@ -5,7 +5,7 @@ from checks import reggen
 def gen(rng, tier):
     n = 400 if tier == 'quick' else 8000
     for _ in range(n):
-        yield reggen.gen_history(rng, rng.choice([25, 50, 90]), reentry=0.0)
+        yield reggen.gen_history(rng, rng.choice([25, 50, 90]), reentry=0.0, traces=True)
 
 def gen_reentry(rng, tier):
     n = 100 if tier == 'quick' else 2000
@@ -112,5 +112,5 @@ PROPERTY = {
 
 # span indices are creation indices: a shrunk history must keep every `ns` op
 for _s in PROPERTY['streams']:
-    _s.shrink_keep = lambda op: op.startswith('ns ')
-    if _s.bin == 'h_registry': _s.model_case = reggen.model_case
+    _s.shrink_keep = lambda op: op.startswith('ns ') or op.startswith('st ')      # (and traces are referred to by number)
+    if _s.bin == 'h_registry': _s.model_case = reggen.model_case; _s.valid_case = reggen.valid_traces
